@@ -257,8 +257,17 @@ Qed.
 Lemma inspect_from_cons idx x tl st :
   inspect_from v idx (x :: tl) st =
   let '(r, st') := inspect_node v idx x st in
-  let '(rs, stf) := inspect_from v (S idx) tl st' in (r :: rs, stf).
+  let '(rs, stf) := inspect_from v (S idx) tl st' in (shadow v (all_required stf) (deleted st) r :: rs, stf).
 Proof. reflexivity. Qed.
+
+(* the second pass only rewrites reported origins *)
+Lemma shadow_proj req del r :
+  (r_invalid (shadow v req del r) = r_invalid r) /\ (r_errors (shadow v req del r) = r_errors r) /\
+  (r_in (shadow v req del r) = r_in r) /\ (r_out (shadow v req del r) = r_out r) /\
+  (r_created (shadow v req del r) = r_created r) /\ (r_suppressed (shadow v req del r) = r_suppressed r).
+Proof. unfold shadow. destruct (default_second_pass v); simpl; repeat split; reflexivity. Qed.
+Lemma node_ok_shadow req del r : node_ok (shadow v req del r) = node_ok r.
+Proof. unfold node_ok. destruct (shadow_proj req del r) as (-> & -> & _). reflexivity. Qed.
 
 Lemma inspect_from_required_mono : forall p idx st rs stf,
   inspect_from v idx p st = (rs, stf) -> forallb node_ok rs = true ->
@@ -268,7 +277,7 @@ Proof.
   - simpl in H. injection H as _ <-. exact Hk.
   - rewrite inspect_from_cons in H. destruct (inspect_node v idx (n, o) st) as [r st'] eqn:E.
     destruct (inspect_from v (S idx) tl st') as [rs' stf'] eqn:E2. injection H as <- <-.
-    simpl in Hok. apply andb_true_iff in Hok as [Hr Hrs].
+    simpl in Hok. rewrite node_ok_shadow in Hok. apply andb_true_iff in Hok as [Hr Hrs].
     eapply IH; eauto.
     assert (Hinv : r_invalid r = false).
     { unfold node_ok in Hr. apply andb_true_iff in Hr as [X _]. apply negb_true_iff in X. exact X. }
@@ -304,7 +313,7 @@ Proof.
   - destruct k; discriminate.
   - rewrite inspect_from_cons in H. destruct (inspect_node v idx (n0, o0) st) as [r st'] eqn:E.
     destruct (inspect_from v (S idx) tl st') as [rs' stf'] eqn:E2. injection H as <- <-.
-    simpl in Hok. apply andb_true_iff in Hok as [Hr Hrs].
+    simpl in Hok. rewrite node_ok_shadow in Hok. apply andb_true_iff in Hok as [Hr Hrs].
     inversion Hh as [|? ? Hh0 Hht]; subst. simpl in Hh0.
     destruct k as [|k].
     + simpl in Hrun, Hnth. inversion Hrun; subst d' c'. injection Hnth as -> ->.
@@ -406,11 +415,12 @@ Proof.
   - destruct k; discriminate.
   - rewrite inspect_from_cons in H. destruct (inspect_node v idx (n0, o0) st) as [r st'] eqn:E.
     destruct (inspect_from v (S idx) tl st') as [rs' stf'] eqn:E2. injection H as <- <-.
-    simpl in Hok. apply andb_true_iff in Hok as [Hr Hrs].
+    simpl in Hok. rewrite node_ok_shadow in Hok. apply andb_true_iff in Hok as [Hr Hrs].
     assert (Hinv : r_invalid r = false).
     { unfold node_ok in Hr. apply andb_true_iff in Hr as [X _]. apply negb_true_iff in X. exact X. }
     destruct (inspect_node_types idx n0 o0 st r st' E Hinv) as [Rin Rout].
-    simpl in Hflow. apply andb_true_iff in Hflow as [Hf0 Hfl]. apply negb_true_iff in Hf0.
+    simpl in Hflow. destruct (shadow_proj v (all_required stf') (deleted st) r) as (_ & _ & Sin & Sout & _).
+    rewrite Sin, Sout in Hflow. apply andb_true_iff in Hflow as [Hf0 Hfl]. apply negb_true_iff in Hf0.
     inversion Hh as [|? ? Hh0 Hht]; subst.
     destruct k as [|k].
     + cbn [firstn map fst run_from nth_error] in Hrun, Hnth. inversion Hrun; subst d' c'. injection Hnth as -> ->.
@@ -483,3 +493,220 @@ Proof.
   intros Hc Hv. apply resolve_context; auto. unfold classify in Hc.
   destruct (has name (n_cfg n)) eqn:E; [discriminate|]. apply has_false_lookup. exact E.
 Qed.
+
+(* ---- exactness: the context never holds a key the analysis does not account for ---------------------------
+   Upper half of the simulation (Inv is the lower half): every key present at run time is either a key of
+   the initial context or was created by an earlier node, and is not in the analysis' deleted set.  Needs
+   nodes that really remove what they declare to suppress (honest_del).  With it, the origin the second
+   pass finally reports for a defaulted parameter is true of the run: a parameter still reported as
+   'default' finds its key absent from the context. *)
+Definition honest_del (n : node) : Prop :=
+  forall d c d' c', exec_node n (d, c) = Ok (d', c') ->
+  forall k, smem k (suppressed_of n) = true -> has k c' = false.
+
+Lemma has_remove k j c : has k (remove j c) = negb (String.eqb k j) && has k c.
+Proof.
+  unfold has. destruct (String.eqb_spec k j) as [->|Hn]; simpl.
+  - rewrite lookup_remove_same. reflexivity.
+  - rewrite lookup_remove_other by auto. reflexivity.
+Qed.
+
+Lemma apply_op_writes_only decl : forall ops c c' k,
+  apply_op_writes decl ops c = Ok c' -> has k c' = true -> has k c = true \/ smem k decl = true.
+Proof.
+  induction ops as [|[j v|j] tl IH]; simpl; intros c c' k H Hk.
+  - injection H as <-. auto.
+  - destruct (smem j decl) eqn:E; [|discriminate].
+    destruct (IH _ _ _ H Hk) as [X|X]; auto. rewrite has_update in X.
+    apply orb_true_iff in X as [X|X]; auto. apply String.eqb_eq in X. subst. auto.
+  - discriminate.
+Qed.
+
+Lemma apply_ctx_ops_only cr su : forall ops c c' k,
+  apply_ctx_ops cr su ops c = Ok c' -> has k c' = true -> has k c = true \/ smem k cr = true.
+Proof.
+  induction ops as [|[j v|j] tl IH]; simpl; intros c c' k H Hk.
+  - injection H as <-. auto.
+  - destruct (smem j cr) eqn:E; [|discriminate].
+    destruct (IH _ _ _ H Hk) as [X|X]; auto. rewrite has_update in X.
+    apply orb_true_iff in X as [X|X]; auto. apply String.eqb_eq in X. subst. auto.
+  - destruct (smem j su); [|discriminate]. destruct (has j c); [|discriminate].
+    destruct (IH _ _ _ H Hk) as [X|X]; auto. rewrite has_remove in X.
+    apply andb_true_iff in X as [_ X]. auto.
+Qed.
+
+(* a key present after a node was present before it or is one of the node's declared created keys *)
+Lemma exec_only_declared n d c d' c' k :
+  exec_node n (d, c) = Ok (d', c') -> has k c' = true -> has k c = true \/ smem k (created_of n) = true.
+Proof.
+  intros H Hk. rewrite smem_created_of.
+  destruct (pr_kind (n_proc n)) eqn:K.
+  1-4: (destruct (exec_data_node n d c (d', c')) as (_ & ps & dd & pv & ops & c1 & R & P & W & E);
+        [rewrite K; reflexivity|exact H|]; rewrite K in E).
+  - injection E as _ ->. destruct (apply_op_writes_only _ _ _ _ k W Hk) as [X|X]; auto. right. rewrite X. reflexivity.
+  - injection E as _ ->. destruct (apply_op_writes_only _ _ _ _ k W Hk) as [X|X]; auto. right. rewrite X. reflexivity.
+  - destruct (n_ckey n) as [key|]; injection E as _ ->.
+    + rewrite has_update in Hk. apply orb_true_iff in Hk as [Hk|Hk].
+      * right. rewrite Hk. apply orb_true_r.
+      * destruct (apply_op_writes_only _ _ _ _ k W Hk) as [X|X]; auto. right. rewrite X. reflexivity.
+    + destruct (apply_op_writes_only _ _ _ _ k W Hk) as [X|X]; auto. right. rewrite X. reflexivity.
+  - injection E as _ ->. destruct (apply_op_writes_only _ _ _ _ k W Hk) as [X|X]; auto. right. rewrite X. reflexivity.
+  - unfold exec_node in H. rewrite K in H.
+    destruct (resolve_all _ _ _ _) as [ps|e]; simpl in H; [|discriminate].
+    destruct (pr_run (n_proc n) d ps) as [[[dd pv] ops]|e]; simpl in H; [|discriminate].
+    destruct (apply_ctx_ops _ _ ops c) as [c1|e] eqn:W; simpl in H; [|discriminate].
+    injection H as _ <-. destruct (apply_ctx_ops_only _ _ _ _ _ k W Hk) as [X|X]; auto. right. rewrite X. reflexivity.
+Qed.
+
+Definition UInv (c0 c : ctx) (st : istate) : Prop :=
+  forall k, has k c = true -> smem k (deleted st) = false /\ (nhas k (key_origin st) = true \/ has k c0 = true).
+
+Lemma uinv_init c0 : UInv c0 c0 init_state.
+Proof. intros k H. split; [reflexivity|right; exact H]. Qed.
+
+Section Exact.
+Variable v : variant.
+Hypothesis Hos : order_sensitive v = true.
+Hypothesis Hde : deleted_at_entry v = true.
+
+Lemma uinv_step idx n o st r st' c0 d c d' c' :
+  inspect_node v idx (n, o) st = (r, st') -> r_invalid r = false -> honest_del n ->
+  exec_node n (d, c) = Ok (d', c') -> UInv c0 c st -> UInv c0 c' st'.
+Proof.
+  intros H Hinv Hd E HU k Hk.
+  destruct (inspect_node_state v idx n o st r st' H Hinv) as (Hdel & Hko & _).
+  rewrite Hdel, Hko.
+  assert (Hs : smem k (suppressed_of n) = false).
+  { destruct (smem k (suppressed_of n)) eqn:S; auto. rewrite (Hd d c d' c' E k S) in Hk. discriminate. }
+  rewrite Hs, orb_false_r.
+  destruct (smem k (created_of n)) eqn:Hcr; simpl.
+  - split; auto.
+  - destruct (exec_only_declared n d c d' c' k E Hk) as [X|X]; [|congruence].
+    destruct (HU k X) as [A B]. split; auto.
+Qed.
+
+(* the origins a constructible node reports before the second pass *)
+Lemma inspect_node_origins idx n o st r st' :
+  inspect_node v idx (n, o) st = (r, st') ->
+  forall name og, In (name, og) (r_origins r) ->
+  has name (n_cfg n) = false /\ og = classify n st name /\ In name (pr_params (n_proc n)).
+Proof.
+  unfold inspect_node. destruct (construct n) as [[]|[s cls w]]; intros H name og Hin; injection H as <- _; simpl in Hin.
+  - apply in_map_iff in Hin as [nm [E Hin]]. injection E as -> <-.
+    apply filter_In in Hin as [Hp Hc]. apply negb_true_iff in Hc. auto.
+  - contradiction.
+Qed.
+
+Lemma classify_context n st name j :
+  classify n st name = OContext j ->
+  (nhas name (key_origin st) = true /\ smem name (deleted st) = false) \/ has name (pr_defaults (n_proc n)) = false.
+Proof.
+  unfold classify, nhas. destruct (has name (n_cfg n)); [discriminate|].
+  destruct (nlookup name (key_origin st)); [destruct (smem name (deleted st)) eqn:D|];
+    destruct (has name (pr_defaults (n_proc n))); try discriminate; auto.
+Qed.
+
+Lemma classify_default n st name :
+  classify n st name = ODefault ->
+  has name (pr_defaults (n_proc n)) = true /\ (nhas name (key_origin st) = false \/ smem name (deleted st) = true).
+Proof.
+  unfold classify, nhas. destruct (has name (n_cfg n)); [discriminate|].
+  destruct (nlookup name (key_origin st)); [destruct (smem name (deleted st)) eqn:D|];
+    destruct (has name (pr_defaults (n_proc n))); try discriminate; auto.
+Qed.
+
+(* Every node that is reached: a parameter finally reported as 'default' is absent from the context,
+   is not configured, and has a default — so its value is the default. *)
+Theorem default_truthful_full : forall p idx st rs stf c0,
+  inspect_from v idx p st = (rs, stf) ->
+  forallb node_ok rs = true ->
+  default_second_pass v = true ->
+  Forall (fun x => honest_del (fst x)) p ->
+  (forall k, has k c0 = true -> smem k (all_required stf) = true) ->
+  forall k i d c d' c' n o r name,
+  UInv c0 c st ->
+  run_from i (firstn k (map fst p)) (d, c) = Done (d', c') ->
+  nth_error p k = Some (n, o) -> nth_error rs k = Some r ->
+  In (name, ODefault) (r_origins r) ->
+  has name c' = false /\ has name (n_cfg n) = false /\ has name (pr_defaults (n_proc n)) = true.
+Proof.
+  induction p as [|[n0 o0] tl IH]; intros idx st rs stf c0 H Hok Hsp Hh Hjust k i d c d' c' n o r name HU Hrun Hnth Hr Hin.
+  - destruct k; discriminate.
+  - rewrite inspect_from_cons in H. destruct (inspect_node v idx (n0, o0) st) as [r0 st'] eqn:E.
+    destruct (inspect_from v (S idx) tl st') as [rs' stf'] eqn:E2. injection H as <- <-.
+    simpl in Hok. rewrite node_ok_shadow in Hok. apply andb_true_iff in Hok as [Hr0 Hrs].
+    inversion Hh as [|? ? Hh0 Hht]; subst. simpl in Hh0.
+    destruct k as [|k].
+    + simpl in Hrun, Hnth, Hr. inversion Hrun; subst d' c'. injection Hnth as -> ->. injection Hr as <-.
+      unfold shadow in Hin. rewrite Hsp in Hin. simpl in Hin.
+      apply in_map_iff in Hin as [[nm og] [Erc Hin0]].
+      destruct (inspect_node_origins idx n o st r0 st' E nm og Hin0) as (Hcfg & Hog & _).
+      unfold reclass in Erc. simpl in Erc.
+      destruct og as [| |j].
+      * discriminate Erc.
+      * destruct (smem nm (all_required stf') && negb (smem nm (deleted st))) eqn:Rq; [discriminate|].
+        injection Erc as ->. symmetry in Hog. destruct (classify_default n st name Hog) as [Hdf Hwhy].
+        split; [|split; auto].
+        destruct (has name c) eqn:Hc; auto. exfalso.
+        destruct (HU name Hc) as [Hnd Hsrc].
+        destruct Hwhy as [Hnk|Hdl]; [|congruence].
+        destruct Hsrc as [X|X]; [congruence|].
+        rewrite (Hjust name X), Hnd in Rq. discriminate.
+      * discriminate Erc.
+    + cbn [firstn map fst run_from nth_error] in Hrun, Hnth, Hr.
+      destruct (exec_node n0 (d, c)) as [[d1 c1]|e] eqn:Ex; [|discriminate].
+      eapply (IH (S idx) st' rs' stf' c0 E2 Hrs Hsp Hht Hjust k (S i) d1 c1 d' c' n o r name); eauto.
+      eapply uinv_step; eauto.
+      unfold node_ok in Hr0. apply andb_true_iff in Hr0 as [X _]. apply negb_true_iff in X. exact X.
+Qed.
+
+(* ... and a parameter finally reported as coming from the context (an earlier node's key, the initial
+   context, or a default shadowed by a required key) finds its key there: the value is the context's. *)
+Theorem context_truthful_full : forall p idx st rs stf c0,
+  inspect_from v idx p st = (rs, stf) ->
+  forallb node_ok rs = true ->
+  Forall (fun x => honest (fst x)) p ->
+  (forall k, smem k (all_required stf) = true -> has k c0 = true) ->
+  forall k i d c d' c' n o r name j,
+  Inv c0 c st ->
+  run_from i (firstn k (map fst p)) (d, c) = Done (d', c') ->
+  nth_error p k = Some (n, o) -> nth_error rs k = Some r ->
+  In (name, OContext j) (r_origins r) ->
+  exists val, lookup name c' = Some val /\ resolve (n_cfg n) c' (pr_defaults (n_proc n)) name = Ok val.
+Proof.
+  induction p as [|[n0 o0] tl IH]; intros idx st rs stf c0 H Hok Hh Hreq k i d c d' c' n o r name j HI Hrun Hnth Hr Hin.
+  - destruct k; discriminate.
+  - rewrite inspect_from_cons in H. destruct (inspect_node v idx (n0, o0) st) as [r0 st'] eqn:E.
+    destruct (inspect_from v (S idx) tl st') as [rs' stf'] eqn:E2. injection H as <- <-.
+    simpl in Hok. rewrite node_ok_shadow in Hok. apply andb_true_iff in Hok as [Hr0 Hrs].
+    inversion Hh as [|? ? Hh0 Hht]; subst. simpl in Hh0.
+    destruct k as [|k].
+    + simpl in Hrun, Hnth, Hr. inversion Hrun; subst d' c'. injection Hnth as -> ->. injection Hr as <-.
+      assert (Hpres : has name c = true /\ has name (n_cfg n) = false).
+      { assert (Horig : forall og, In (name, og) (r_origins r0) -> is_ctx_origin og = true -> has name c = true /\ has name (n_cfg n) = false).
+        { intros og Hin0 Hog. destruct (inspect_node_origins idx n o st r0 st' E name og Hin0) as (Hcfg & Heq & Hp).
+          split; auto. destruct og as [| |j0]; try discriminate. symmetry in Heq.
+          destruct (classify_context n st name j0 Heq) as [[X1 X2]|Hnd].
+          - apply HI. unfold avail. rewrite X1, X2. reflexivity.
+          - destruct (inspect_node_params v Hos Hde idx n o st r0 st' name E Hr0 Hp) as [X|[X|[[X1 X2]|[X1 X2]]]]; try congruence.
+            + apply HI. unfold avail. rewrite X1, X2. reflexivity.
+            + apply HI. unfold avail. rewrite X2.
+              rewrite (Hreq name (inspect_from_required_mono v tl (S idx) st' rs' stf' E2 Hrs name X1)).
+              rewrite orb_true_r. reflexivity. }
+        unfold shadow in Hin. destruct (default_second_pass v); [|eapply Horig; eauto].
+        simpl in Hin. apply in_map_iff in Hin as [[nm og] [Erc Hin0]]. unfold reclass in Erc. simpl in Erc.
+        destruct og as [| |j0].
+        - discriminate Erc.
+        - destruct (smem nm (all_required stf') && negb (smem nm (deleted st))) eqn:Rq; [|discriminate Erc].
+          injection Erc as -> _. apply andb_true_iff in Rq as [R1 R2]. apply negb_true_iff in R2.
+          destruct (inspect_node_origins idx n o st r0 st' E name ODefault Hin0) as (Hcfg & _ & _).
+          split; auto. apply HI. unfold avail. rewrite (Hreq name R1), R2, orb_true_r. reflexivity.
+        - injection Erc as -> _. eapply Horig; eauto. }
+      destruct Hpres as [Hc Hcfg]. destruct (has_lookup _ _ Hc) as [val Hv]. exists val. split; auto.
+      apply resolve_context; auto. apply has_false_lookup. exact Hcfg.
+    + cbn [firstn map fst run_from nth_error] in Hrun, Hnth, Hr.
+      destruct (exec_node n0 (d, c)) as [[d1 c1]|e] eqn:Ex; [|discriminate].
+      eapply (IH (S idx) st' rs' stf' c0 E2 Hrs Hht Hreq k (S i) d1 c1 d' c' n o r name j); eauto.
+      eapply (inv_step v); eauto.
+Qed.
+End Exact.
